@@ -73,6 +73,7 @@ impl<I: Integer, const N: usize> Bvf<I, N> {
     /// assert_eq!(bv, Bvf::<u16, 2>::try_from(0x7000_0001u32).unwrap());
     /// ```
     pub const fn new(data: [I; N], length: usize) -> Self {
+        assert!(length <= Self::capacity());
         Self { data, length }
     }
 
